@@ -3,6 +3,7 @@ package types
 import (
 	"fmt"
 	"maps"
+	"reflect"
 
 	"github.com/kaptinlin/gozod/core"
 	"github.com/kaptinlin/gozod/internal/checks"
@@ -355,6 +356,52 @@ func lookupHashable[K comparable, V any](m map[K]V, key K) (v V, ok bool) {
 	return v, ok
 }
 
+// maxReceivedDepth bounds the nesting fmt is allowed to render for "received".
+const maxReceivedDepth = 32
+
+// receivedString renders a rejected value for the "received" property of the
+// issue. fmt follows slices and maps through their interface elements without
+// cycle detection, so a self-referential input (s[1] = s) would overflow the
+// stack: a value nested deeper than maxReceivedDepth is described by its type.
+func receivedString(value any) string {
+	if nestedDeeperThan(reflect.ValueOf(value), maxReceivedDepth) {
+		return fmt.Sprintf("%T", value)
+	}
+	return fmt.Sprintf("%v", value)
+}
+
+// nestedDeeperThan reports whether v contains containers nested deeper than limit.
+func nestedDeeperThan(v reflect.Value, limit int) bool {
+	if limit < 0 {
+		return true
+	}
+	switch v.Kind() { //nolint:exhaustive // only the kinds fmt descends into
+	case reflect.Interface:
+		return !v.IsNil() && nestedDeeperThan(v.Elem(), limit)
+	case reflect.Pointer:
+		return !v.IsNil() && nestedDeeperThan(v.Elem(), limit-1)
+	case reflect.Slice, reflect.Array:
+		for i := range v.Len() {
+			if nestedDeeperThan(v.Index(i), limit-1) {
+				return true
+			}
+		}
+	case reflect.Map:
+		for it := v.MapRange(); it.Next(); {
+			if nestedDeeperThan(it.Key(), limit-1) || nestedDeeperThan(it.Value(), limit-1) {
+				return true
+			}
+		}
+	case reflect.Struct:
+		for i := range v.NumField() {
+			if nestedDeeperThan(v.Field(i), limit-1) {
+				return true
+			}
+		}
+	}
+	return false
+}
+
 // validateEnum validates the enum value and applies checks, collecting all
 // issues encountered during validation.
 func (z *ZodEnum[T, R]) validateEnum(
@@ -373,7 +420,7 @@ func (z *ZodEnum[T, R]) validateEnum(
 			core.InvalidValue,
 			"Invalid enum value",
 			map[string]any{
-				"received": fmt.Sprintf("%v", value),
+				"received": receivedString(value),
 				"options":  opts,
 			},
 			value,
